@@ -240,10 +240,13 @@ def showRes : Res → String
 /-- `evalg <fuel> <prog>` -/
 def handleEvalG (fields : List String) : String :=
   match fields with
-  | [fuel, prog] =>
+  | fuel :: prog :: _ =>       -- an optional third field carries the Go source (replay only)
     match fuel.toNat?, parseProg prog with
     | some n, some p => showRes (evalG n p)
     | _, _ => "bad-input"
   | _ => "bad-input"
+
+/-- `skip …`: a case compared two-way on the Go side only (features outside the model). -/
+def handleSkip (_ : List String) : String := "skip"
 
 end GopModel.Driver
